@@ -3,7 +3,7 @@
 From Coq Require Import List Arith Bool ZArith Reals Permutation.
 From Celer Require Import Base.Num Base.NumR Base.NumF C18.Algorithms C18.Specs C18.ArrayLemmas C18.SearchProofs
   C18.IntProofs C18.HeapsortProofs C18.IndexProofs C18.Grids C18.GridProofs C18.GridWitness C18.GridFlocq
-  C18.RangeImpl C18.RangeImplProofs C18.Span C18.SpanProofs C18.Math C18.MathProofs C18.MathWitness.
+  C18.RangeImpl C18.RangeImplProofs C18.Span C18.SpanProofs C18.Math C18.MathProofs C18.MathWitness C18.IndexEndProofs.
 Import ListNotations.
 
 (** ** celeritas::sort (heap sort): for every strict weak order and every array
@@ -225,6 +225,34 @@ Theorem C18_hyperslab_bijective : forall dims, dims <> [] -> Forall (lt 0) dims 
      hyperslab_index dims (hyperslab_coords dims index) = index).
 Proof. exact hyperslab_bijective. Qed.
 Print Assumptions C18_hyperslab_bijective.
+
+(** HyperslabInverseIndexer on its FULL precondition domain [0, size] (the CELER_EXPECT is
+    [index <= hyperslab_size(dims)]): mixed-radix digits with an UNBOUNDED leading digit
+    (the code keeps the whole remaining quotient for axis 0), round trip through
+    HyperslabIndexer for EVERY index, leading digit <= dims[0] inside the precondition, and the
+    one-past-the-end index maps to (dims[0], 0, ..., 0) *)
+Theorem C18_hyperslab_inverse_spec : forall dims, dims <> [] -> Forall (lt 0) dims ->
+  forall index,
+  let coords := hyperslab_coords dims index in
+  length coords = length dims /\
+  Forall2 lt (tl coords) (tl dims) /\
+  hd 0 coords = index / prod (tl dims) /\
+  hyperslab_index dims coords = index.
+Proof. exact hyperslab_inverse_spec. Qed.
+Print Assumptions C18_hyperslab_inverse_spec.
+
+Theorem C18_hyperslab_inverse_leading : forall dims, dims <> [] -> Forall (lt 0) dims ->
+  forall index, index <= prod dims ->
+  hd 0 (hyperslab_coords dims index) <= hd 0 dims /\
+  (index < prod dims -> hd 0 (hyperslab_coords dims index) < hd 0 dims).
+Proof. exact hyperslab_inverse_leading. Qed.
+Print Assumptions C18_hyperslab_inverse_leading.
+
+Theorem C18_hyperslab_inverse_end : forall dims, dims <> [] -> Forall (lt 0) dims ->
+  hyperslab_coords dims (prod dims) = hd 0 dims :: repeat 0 (length dims - 1) /\
+  hyperslab_index dims (hyperslab_coords dims (prod dims)) = prod dims.
+Proof. exact hyperslab_inverse_end. Qed.
+Print Assumptions C18_hyperslab_inverse_end.
 
 Theorem C18_ragged_right_bijective : forall offsets, 2 <= length offsets -> offsets_mono offsets ->
   (forall a b, a + 1 < length offsets -> b < off offsets (a + 1) - off offsets a ->
